@@ -1202,15 +1202,28 @@ def unpack_named_tuple(spec: ValueSpec) -> Expression:
         # we shouldn't be here because there will be default_kwargs
         lines.append(f"def {method_name}({method_args}):")
     with lines.indent():
-        lines.append("fields = []")
-        with lines.indent("try:"):
-            for unpacker in unpackers:
-                lines.append(f"fields.append({unpacker})")
-        with lines.indent("except IndexError:"):
-            with lines.indent("if len(fields) < len(value):"):
-                lines.append("raise")
         field_type = spec.builder.get_type_name_identifier(spec.type)
-        lines.append(f"return {field_type}(*fields)")
+        if as_dict:
+            # items are looked up by name: a missing key of a field that has
+            # a default leaves that field to its default (an IndexError can
+            # only come from inside an item unpacker here and propagates)
+            lines.append("fields = {}")
+            for field, unpacker in zip(fields, unpackers):
+                if field in defaults:
+                    with lines.indent(f"if {field!r} in value:"):
+                        lines.append(f"fields[{field!r}] = {unpacker}")
+                else:
+                    lines.append(f"fields[{field!r}] = {unpacker}")
+            lines.append(f"return {field_type}(**fields)")
+        else:
+            lines.append("fields = []")
+            with lines.indent("try:"):
+                for unpacker in unpackers:
+                    lines.append(f"fields.append({unpacker})")
+            with lines.indent("except IndexError:"):
+                with lines.indent("if len(fields) < len(value):"):
+                    lines.append("raise")
+            lines.append(f"return {field_type}(*fields)")
     lines.append(
         f"setattr({spec.cls_attrs_name}, '{method_name}', {method_name})"
     )
